@@ -282,11 +282,12 @@ func (mq *memtableQueue) add(vector []float32, text string, metadata map[string]
 		mq.rotateNoLock()
 	}
 
-	mutable := mq.mutable
-	mq.mu.Unlock()
+	// Write while still holding the queue lock: a concurrent rotation must not
+	// freeze the chosen memtable between the choice and the write
+	defer mq.mu.Unlock()
 	verifHook("mq.add.chosen", uint32(0))
 
-	return mutable.add(vector, text, metadata)
+	return mq.mutable.add(vector, text, metadata)
 }
 
 // addWithID adds a document with a specific ID to the active memtable.
@@ -298,11 +299,12 @@ func (mq *memtableQueue) addWithID(id uint32, vector []float32, text string, met
 		mq.rotateNoLock()
 	}
 
-	mutable := mq.mutable
-	mq.mu.Unlock()
+	// Write while still holding the queue lock: a concurrent rotation must not
+	// freeze the chosen memtable between the choice and the write
+	defer mq.mu.Unlock()
 	verifHook("mq.add.chosen", id)
 
-	return mutable.addWithID(id, vector, text, metadata)
+	return mq.mutable.addWithID(id, vector, text, metadata)
 }
 
 // Rotate creates a new mutable memtable and freezes the old one.
